@@ -248,7 +248,7 @@ prop('C11',
            '(idle gap, reads) x optional cancel at a drawn virtual time; executed with goroutine actors on the virtual clock of a synctest bubble; oracle: received values are a prefix of the exact successive sequence, errors a prefix of the failing indices, '
            'Emit: consecutive calls of f at least one frequency apart, call i not before i ticks, value j not received before j ticks, f called with 0,1,2,...; an always-ready consumer without faults receives values exactly one frequency apart; '
            'the stage keeps producing until cancelled (bounded virtual wait); after cancel both channels close and the bubble ends; '
-           'in a third of the Emit scenarios the step function itself takes 0..3 quarters of a tick of virtual time; in half of the cancelled scenarios the consumer gives up at the cancel; non-trivial = >= 3 values received and (capacity < received or an idle gap of >= 2 ticks); distinct = different canonical scenario'),
+           'in a third of the Emit scenarios the step function itself takes 0..3 quarters of a tick of virtual time; in half of the cancelled scenarios the consumer gives up at the cancel; a sixth of the scenarios run an independent second Emit/Unfold on the same virtual clock (always-ready consumer: exact sequence, values exactly one period apart); non-trivial = >= 3 values received and (capacity < received or an idle gap of >= 2 ticks); distinct = different canonical scenario'),
      assumptions=E3_ASSUME + ['pacing is checked on the virtual clock, i.e. the logic of sleeping, not scheduler latency'],
      parts=[
          dict(name='rapid', engine='E3', pkg='pipes', test='TestC11',
@@ -265,7 +265,7 @@ prop('C13',
      rule=('generated: ops 1..5 x interval 1..4 units of {1ms, 1s, 7ns} x input capacity 0..3 x 0..30 elements x scenario class (saturated: input always available and consumer always ready; consumer stalls for 2..10 intervals then drains; '
            'input pauses for 2..10 intervals then bursts; random arrival and consumer patterns) x optional cancel at a drawn time; actors on a synctest virtual clock; oracle: delivered == input in order, closed at the end; for every delivery time t before the cancel the '
            'half-open window [t, t+interval) holds at most 2*ops+1+c deliveries; saturated class: element i delivered within [floor(i/ops)*interval, +interval]; completion within a generous virtual budget; '
-           'non-trivial = at least 2*ops+1 elements and (an idle period of >= 2 intervals followed by a burst, or saturated with ops >= 2); distinct = different canonical scenario'),
+           'a sixth of the scenarios run an independent second Throttling of the same rate on the same virtual clock (saturated environment: exact per-element delivery window); non-trivial = at least 2*ops+1 elements and (an idle period of >= 2 intervals followed by a burst, or saturated with ops >= 2); distinct = different canonical scenario'),
      assumptions=E3_ASSUME + ['rate bound as stated by the property (2*ops+1+c per interval window), timestamps taken at the consumer'],
      parts=[
          dict(name='rapid', engine='E3', pkg='pipes', test='TestC13',
